@@ -769,10 +769,10 @@ fn _solve<T: FloatT>(Lp: &[usize], Li: &[usize], Lx: &[T], Dinv: &[T], b: &mut [
 
 // Construct an inverse permutation from a permutation
 fn _invperm(p: &[usize]) -> Result<Vec<usize>, QDLDLError> {
-    let mut b = vec![0; p.len()];
+    let mut b = vec![QDLDL_UNKNOWN; p.len()];
 
     for (i, j) in p.iter().enumerate() {
-        if *j < p.len() && b[*j] == 0 {
+        if *j < p.len() && b[*j] == QDLDL_UNKNOWN {
             b[*j] = i;
         } else {
             return Err(QDLDLError::InvalidPermutation);
